@@ -3111,3 +3111,8 @@ V(id='c14-mpf-outward-nan-bounds-swapped', prop='C14', file='mpmath/libmp/libmpi
 V(id='c13-powm1-zero-beyond-size-bound', prop='C13', file='mpmath/functions/functions.py',
   old="                    w = ctx.expm1(y*ctx.log1p(d))\n", new="                    pass\n",
   expect='fire:E-X4:powm1')
+
+# ---- C07 L-R1 in ctx_mp_python.py (third hunt; fix 4bb26c0) ----
+V(id='c07-pq-parameter-through-int', prop='C07', file='mpmath/ctx_mp_python.py',
+  old="                p = str_to_int(p)\n                q = str_to_int(q)\n", new="                p = int(p)\n                q = int(q)\n",
+  expect='fire:L-R1:_convert_param')
